@@ -50,8 +50,8 @@ fn types(small: bool) -> Vec<DnTypeSpec> {
 			DnTypeSpec::Custom(vec![1, 2, 840, 113549, 1, 9, 1]),
 			DnTypeSpec::Custom(vec![2, 999, 18446744073709551000]),
 			// enough further types for names of more than 16 attributes
-			DnTypeSpec::Custom(vec![2, 5, 4, 4]),
-			DnTypeSpec::Custom(vec![2, 5, 4, 5]),
+			DnTypeSpec::Custom(vec![2, 5, 4, 0]),
+			DnTypeSpec::Custom(vec![1, 0, 8571, 2, 1]),
 			DnTypeSpec::Custom(vec![2, 5, 4, 9]),
 			DnTypeSpec::Custom(vec![2, 5, 4, 12]),
 			DnTypeSpec::Custom(vec![2, 5, 4, 17]),
@@ -61,7 +61,8 @@ fn types(small: bool) -> Vec<DnTypeSpec> {
 			DnTypeSpec::Custom(vec![2, 5, 4, 65]),
 			DnTypeSpec::Custom(vec![1, 3, 6, 1, 4, 1, 311, 60, 2, 1, 3]),
 			DnTypeSpec::Custom(vec![1, 3, 6, 1, 4, 1, 55555, 1]),
-			DnTypeSpec::Custom(vec![1, 3, 6, 1, 4, 1, 55555, 2]),
+			// zero arcs inside the identifier
+			DnTypeSpec::Custom(vec![1, 3, 6, 1, 4, 1, 55555, 0, 2]),
 		]
 	}
 }
@@ -322,6 +323,15 @@ fn vary_values(ops: &[DnOp], how: u8) -> Vec<DnOp> {
 		.collect()
 }
 
+/// push / remove only (and a rare encode): for long runs on one and the same name object
+fn edit_op(n_types: u8) -> impl Strategy<Value = DnOp> {
+	prop_oneof![
+		10 => (0..n_types, gen::dn_value()).prop_map(|(t, v)| DnOp::Push(t, v)),
+		9 => (0..n_types).prop_map(DnOp::Remove),
+		1 => any::<bool>().prop_map(DnOp::Encode),
+	]
+}
+
 fn random_history() -> BoxedStrategy<History> {
 	(prop_oneof![3 => proptest::collection::vec(op(12), 0..60), 1 => proptest::collection::vec(op(24), 20..90)], proptest::collection::vec(op(12), 0..8), any::<u8>())
 		.prop_map(|(ops, tail, mode)| {
@@ -348,7 +358,9 @@ fn random_history() -> BoxedStrategy<History> {
 
 /// Histories concentrated on few types so that remove / re-push / replace happen often.
 fn dense_history() -> BoxedStrategy<History> {
-	(proptest::collection::vec(op(3), 0..24), any::<u8>())
+	// mostly short; one in forty runs to a thousand operations over a handful of types, so that
+	// well over a hundred removals happen on one object
+	(prop_oneof![39 => proptest::collection::vec(op(3), 0..24), 1 => proptest::collection::vec(edit_op(5), 900..1300)], any::<u8>())
 		.prop_map(|(ops, mode)| {
 			let other = match mode % 3 {
 				0 => ops.iter().rev().cloned().collect(),
@@ -363,7 +375,7 @@ fn dense_history() -> BoxedStrategy<History> {
 pub fn def() -> PropertyDef {
 	PropertyDef {
 		id: "C20",
-		rule: "Operation sequences push(type, value) / remove(type) / encode (the name, which lives inside the CertificateParams it is encoded from, is written into a CSR through a reference or into a certificate from a clone, the decoded subject must be the model at that step, and editing goes on afterwards) interpreted against DistinguishedName and against a Vec<(type, value)> model, observed after every step (iter, get for every type of the alphabet, remove's return value, no duplicates), plus the equality relation against a second history (identical, extended, reversed, unrelated, or the same history with every text changed only in letter case or white space), a rebuilt name and a clone, plus the encoded order in a certificate. Bounded-exhaustive: every sequence up to length 5 (quick; 111 111) / 6 (thorough; 1 111 111) over 10 operations (3 types incl. a custom OID equal to a standard one x 2 values + 3 removes + encode); random: length <= 60 over 12 types (a quarter: 20..90 operations over 24 types, so that names of more than 16 attributes occur and shrink again) and all six value kinds; the final name is also encoded as subject and as issuer of certificates issued under / for another name by the same key. Random and dense histories also contain re-import steps (the name is written into a certificate, the certificate imported, and editing continues on the imported name object). Non-trivial = the history contains a replace, a push of a previously removed type, a second encode, or a re-import.",
+		rule: "Operation sequences push(type, value) / remove(type) / encode (the name, which lives inside the CertificateParams it is encoded from, is written into a CSR through a reference or into a certificate from a clone, the decoded subject must be the model at that step, and editing goes on afterwards) interpreted against DistinguishedName and against a Vec<(type, value)> model, observed after every step (iter, get for every type of the alphabet, remove's return value, no duplicates), plus the equality relation against a second history (identical, extended, reversed, unrelated, or the same history with every text changed only in letter case or white space), a rebuilt name and a clone, plus the encoded order in a certificate. Bounded-exhaustive: every sequence up to length 5 (quick; 111 111) / 6 (thorough; 1 111 111) over 10 operations (3 types incl. a custom OID equal to a standard one x 2 values + 3 removes + encode); random: length <= 60 over 12 types (a quarter: 20..90 operations over 24 types, so that names of more than 16 attributes occur and shrink again; custom types with zero arcs among them) and all six value kinds; dense: up to 24 operations over 3 types, one in forty 900..1300 operations over 5 types (hundreds of effective removals on one object); the final name is also encoded as subject and as issuer of certificates issued under / for another name by the same key. Random and dense histories also contain re-import steps (the name is written into a certificate, the certificate imported, and editing continues on the imported name object). Non-trivial = the history contains a replace, a push of a previously removed type, a second encode, or a re-import.",
 		assumptions: vec!["the Vec model is the specification (insertion order since last absence, latest value)"],
 		subs: vec![
 			sweep_sub("exhaustive", exhaustive, check_history),
